@@ -792,3 +792,32 @@ def same_operands(call: ast.AST, name: str, operands: List[str]) -> bool:
     if len(args) == 1 and isinstance(args[0], (ast.List, ast.Tuple, ast.Set)):
         args = args[0].elts
     return sorted(txt(a) for a in args) == sorted(operands)
+
+
+def iteration_conditions(cfg: CFG, loop: ast.AST, node: ast.AST, limit: int = 64):
+    """ exact conditions of the paths from the top of one iteration of `loop` to node (not passing the loop header
+        again): one [(test expr, truth), ...] per path """
+    head, target = cfg.n(loop), cfg.n(node)
+    can_reach = {target} | {n.id for n in cfg.nodes if target in cfg.reach([n.id], avoid=[head])}
+    out = []
+
+    def walk(cur: int, seen: Tuple[int, ...], conds) -> None:
+        if cur == target:
+            out.append(list(conds))
+            if len(out) > limit:
+                raise ValueError("too many paths")
+            return
+        if cur in seen or cur == head:
+            return
+        for dst, label in cfg.succ[cur]:
+            if dst not in can_reach:
+                continue
+            extra = conds
+            test = cfg.nodes[cur]
+            if test.kind == "test" and label in ("T", "F") and test.ast is not None and hasattr(test.ast, "test"):
+                extra = conds + ((test.ast.test, label == "T"),)
+            walk(dst, seen + (cur,), extra)
+    for dst, label in cfg.succ[head]:
+        if label == "T" and dst in can_reach:
+            walk(dst, (), ())
+    return out
